@@ -135,6 +135,45 @@ def f80_obligations(T, a64, b64):
     return O
 
 
+def wide_obligations(M, X, Y):
+    """comparisons, equality, min/max/abs/neg and the narrowing conversion on ARBITRARY f80 values (not only images of f64:
+    results of earlier operations need all 64 significand bits)"""
+    O = []
+    def ob(name, role, claim, key, desc, impl, spec):
+        O.append(dict(name=name, role=role, claim=claim, key=key, desc=desc, impl=impl, spec=spec, wide=True))
+    for f, op in (("lt", z3.fpLT), ("gt", z3.fpGT), ("le", z3.fpLEQ), ("ge", z3.fpGEQ), ("eq", z3.fpEQ)):
+        i_, s_ = M.method(f, X, Y), op(X, Y)
+        ob("wide-" + f, "wide-" + f, i_ == s_, f, "%s on arbitrary f80 values agrees with the IEEE relation" % f, i_, s_)
+    pc = M.partial_cmp(X, Y)
+    un = z3.Or(z3.fpIsNaN(X), z3.fpIsNaN(Y))
+    spec = {None: un, "Less": z3.fpLT(X, Y), "Equal": z3.fpEQ(X, Y), "Greater": z3.fpGT(X, Y)}
+    for k in (None, "Less", "Equal", "Greater"):
+        ob("wide-partial_cmp-%s" % k, "wide-partial-cmp", pc[k] == spec[k], "pcmp", "partial_cmp on arbitrary f80 values: %s exactly when IEEE says so" % k, pc, spec)
+    ob("wide-eq-consistent", "wide-eq", M.method("eq", X, Y) == pc["Equal"], "eq", "== holds exactly when partial_cmp is Some(Equal), for arbitrary f80 values", M.method("eq", X, Y), pc["Equal"])
+    nn = z3.And(z3.Not(z3.fpIsNaN(X)), z3.Not(z3.fpIsNaN(Y)))
+    for f, sp in (("min", z3.fpMin), ("max", z3.fpMax)):
+        r = M.minmax(f, X, Y)
+        ob("wide-" + f, "wide-minmax", z3.Implies(nn, z3.And(z3.fpEQ(r, sp(X, Y)), z3.Or(r == X, r == Y))), f, "%s of arbitrary non-NaN f80 values" % f, r, sp(X, Y))
+    r = M.abs(X)
+    ob("wide-abs", "wide-abs", z3.Implies(z3.Not(z3.fpIsNaN(X)), z3.fpEQ(r, z3.fpAbs(X))), "abs", "abs of an arbitrary non-NaN f80 value", r, z3.fpAbs(X))
+    r = M.unop("neg", X)
+    ob("wide-neg", "wide-neg", r == z3.fpNeg(X), "neg", "negation of an arbitrary f80 value (sign of zero included)", r, z3.fpNeg(X))
+    r = M.narrow(X)
+    ob("wide-narrow", "wide-narrow", r == z3.fpToFP(RNE, X, F64), "nar", "f80 -> f64 is the correctly rounded value (round to nearest even), for every f80 value", r, z3.fpToFP(RNE, X, F64))
+    return O
+
+
+def native_raw(exe, xa, xb):
+    def enc(v):
+        if v.isNaN():
+            return ["7fff", "c000000000000000"]
+        bv = z3.simplify(z3.fpToIEEEBV(v)).as_long()
+        sign, exp, frac = bv >> 78, (bv >> 63) & 0x7fff, bv & ((1 << 63) - 1)
+        return ["%04x" % ((sign << 15) | exp), "%016x" % (frac | ((1 << 63) if exp != 0 else 0))]
+    out = subprocess.run([exe, "raw"] + enc(xa) + enc(xb), stdout=subprocess.PIPE, text=True, timeout=60).stdout.strip()
+    return dict(kv.split("=") for kv in out.split(";")) if out else {}
+
+
 def show_native_key(nat, key):
     return nat.get(key)
 
@@ -247,6 +286,50 @@ def run_engine(tier, seed, known, only):
                         out["known"].append("KNOWN-FINDING: property=C18 %s" % k["what"])
                 else:
                     out["violations"].append("VIOLATION property=C18 replay=%s" % os.path.relpath(path, VERIF))
+        out["records"].append(rec)
+    # ---- second family: arbitrary f80 operands
+    X, Y = z3.FP("x80", F80), z3.FP("y80", F80)
+    try:
+        wobs = wide_obligations(M, X, Y)
+    except Unsupported as e:
+        out["inconclusive"].append({"obligation": "encoding (arbitrary f80 operands)", "reason": "x87sym: %s" % e})
+        wobs = []
+    for o in wobs:
+        if only and only not in o["name"]:
+            continue
+        t1 = time.time()
+        sv = z3.Solver()
+        sv.set("timeout", 120000 if tier == "quick" else 900000)
+        sv.add(z3.Not(o["claim"]))
+        r = sv.check()
+        dt = time.time() - t1
+        rec = {"name": o["name"], "engine": "x87sym", "status": "PASS", "ok": True, "queries": 1, "time": dt, "solver_time": dt, "desc": o["desc"], "bounds": "all pairs of f80 values"}
+        print("  [C18] %-8s %-36s %6.1fs" % ("ok" if r == z3.unsat else ("VIOL" if r == z3.sat else "unknown"), o["name"], dt), flush=True)
+        if r == z3.unknown:
+            rec.update(status="INCONCLUSIVE", ok=False)
+            out["inconclusive"].append({"obligation": o["name"], "reason": "z3 returned unknown"})
+        elif r == z3.sat:
+            mdl = sv.model()
+            xa, xb = mdl.eval(X, model_completion=True), mdl.eval(Y, model_completion=True)
+            n = native_raw(exe, xa, xb)
+            key = o["key"]
+            if key == "pcmp":
+                impl_v, spec_v, nat_v = pc_value(mdl, o["impl"]), pc_value(mdl, o["spec"]), n.get("pcmp")
+            else:
+                ev = lambda t: (str(z3.is_true(mdl.eval(t, model_completion=True))).lower() if z3.is_bool(t) else
+                                (f64_repr(mdl.eval(t, model_completion=True)) if t.sort() == F64 else x87_repr(mdl.eval(t, model_completion=True))))
+                impl_v, spec_v = ev(o["impl"]), ev(o["spec"])
+                nv = n.get(key, "")
+                nat_v = native_norm(nv) if ":" in nv else (native_f64_norm(nv) if key == "nar" else nv)
+            text = "x=%s y=%s: native %s=%s; model impl=%s; IEEE spec=%s" % (x87_repr(xa), x87_repr(xb), key, nat_v, impl_v, spec_v)
+            rec.update(status="FAIL", ok=False, violation=text)
+            if nat_v == impl_v and nat_v != spec_v or (key in ("min", "max", "abs") and nat_v == impl_v):
+                rdir = os.path.join(VERIF, "replays", "C18"); os.makedirs(rdir, exist_ok=True)
+                path = os.path.join(rdir, "f80_%s.json" % o["name"])
+                json.dump({"property": "C18", "obligation": o["name"], "x": x87_repr(xa), "y": x87_repr(xb), "key": key, "native": nat_v, "model_impl": impl_v, "ieee_spec": spec_v}, open(path, "w"), indent=1)
+                out["violations"].append("VIOLATION property=C18 replay=%s" % os.path.relpath(path, VERIF))
+            else:
+                out["inconclusive"].append({"obligation": o["name"], "reason": "counterexample does not reproduce on the real FPU (%s)" % text})
         out["records"].append(rec)
     # ---- cvc5 cross-check (thorough)
     if tier == "thorough" and not only:
